@@ -401,9 +401,13 @@ func execC11Session(in sx.V) sx.V {
 			got <- d
 		}()
 		for _, m := range c2s {
-			p, err := liteclient.NewPacket(append([]byte{}, m.payload...))
+			buf := append([]byte{}, m.payload...)
+			p, err := liteclient.NewPacket(buf)
 			if err == nil {
 				err = v.Send(p)
+			}
+			if err == nil && !bytes.Equal(buf, m.payload) {
+				err = errors.New("Send modified the caller's payload buffer")
 			}
 			if err != nil {
 				clientErr = err
@@ -790,6 +794,7 @@ func genC11(c *Ctx) {
 
 	// --- several goroutines sending on one Connection
 	genC11Concurrent(c)
+	genC11Magic(c)
 
 	// --- the 8 MiB limit on the implementation only (the extracted model would need minutes)
 	if c.Thorough() {
